@@ -72,10 +72,15 @@ type poolIn struct {
 }
 
 type priorIn struct {
-	P   int    `json:"p"`
+	K   string `json:"k"` // "" / swap: exact-in swap; join / exit: all-asset join / exit of Num/Den of the pool's shares (gamm pools);
+	P   int    `json:"p"` // pos: an extra position on a concentrated pool (Lo, Hi, Amt = amount of both tokens)
 	In  int    `json:"in"`
 	Out int    `json:"out"`
 	Amt string `json:"amt"`
+	Num int64  `json:"num"`
+	Den int64  `json:"den"`
+	Lo  int64  `json:"lo"`
+	Hi  int64  `json:"hi"`
 }
 
 type hopIn struct {
@@ -475,6 +480,36 @@ func setup(t *testing.T, c caseIn) (w *world, fatal string) {
 	// prior activity through the app's own router (zero taker fee at this point is not needed: the lp pays whatever is set)
 	pms := poolmanager.NewMsgServerImpl(app.PoolManagerKeeper)
 	for _, pr := range c.Prior {
+		if pr.K == "join" || pr.K == "exit" {
+			id := w.poolId(pr.P)
+			_ = apph.Atomic(ctx, func(cc sdk.Context) error {
+				p, e := app.GAMMKeeper.GetPoolAndPoke(cc, id)
+				if e != nil {
+					return e
+				}
+				sh := p.GetTotalShares().MulRaw(pr.Num).QuoRaw(pr.Den)
+				if pr.K == "join" {
+					_, _, e = app.GAMMKeeper.JoinPoolNoSwap(cc, w.lp, id, sh, sdk.Coins{})
+				} else {
+					_, e = app.GAMMKeeper.ExitPool(cc, w.lp, id, sh, sdk.Coins{})
+				}
+				return e
+			})
+			continue
+		}
+		if pr.K == "pos" {
+			id := w.poolId(pr.P)
+			_ = apph.Atomic(ctx, func(cc sdk.Context) error {
+				p, e := app.ConcentratedLiquidityKeeper.GetConcentratedPoolById(cc, id)
+				if e != nil {
+					return e
+				}
+				coins := sdk.NewCoins(sdk.NewCoin(p.GetToken0(), bi(pr.Amt)), sdk.NewCoin(p.GetToken1(), bi(pr.Amt)))
+				_, e = app.ConcentratedLiquidityKeeper.CreatePosition(cc, id, w.lp, coins, osmomath.ZeroInt(), osmomath.ZeroInt(), pr.Lo, pr.Hi)
+				return e
+			})
+			continue
+		}
 		msg := &pmtypes.MsgSwapExactAmountIn{Sender: w.lp.String(), Routes: []pmtypes.SwapAmountInRoute{{PoolId: w.poolId(pr.P), TokenOutDenom: c.Denoms[pr.Out]}},
 			TokenIn: sdk.NewCoin(c.Denoms[pr.In], bi(pr.Amt)), TokenOutMinAmount: osmomath.OneInt()}
 		_ = apph.Atomic(ctx, func(cc sdk.Context) error {
